@@ -21,12 +21,17 @@ STUBS = ['pathos ParallelPool -> SimPool (pickle isolation, PRNG order, worker e
 PROBES = ['corpus_case', 'batch_with_skipped_tx', 'last_batch_partial', 'threads_gt_1', 'multi_file', 'idx_used',
           'non_ascii_gvf_with_idx', 'index_dir_used', 'foreign_index_refused', 'index_dir_updated_pool', 'cache_evicting', 'tx_with_fusion_and_circ', 'noncanonical_only',
           'ref_nonempty', 'shadow_hashseed_compared', 'real_pool_calibrated', 'threads_under_timeout']
-RULE = ('case = generated reference (3-9 genes) + SNV/INDEL/fusion/circRNA/alt-splicing records; one reference '
-        'execution (threads=1, one GVF per kind, no idx, raw reference) and 3-5 perturbed executions drawing '
-        'threads 1..8 through SimPool, a random partition/order of records into files, idx subset, index dir, '
-        'cache sizes, order-seam salt; a quarter of the cases re-run the reference execution under another '
-        'PYTHONHASHSEED.  distinct = distinct (threads, batch sizes, skipped-transcript positions, #files, idx '
-        'mask, index_dir, salt!=0, cache<n_tx) signatures of perturbed executions with a non-empty reference set')
+RULE = ('case = generated reference (3-9 genes; a fifth with a paralog copy of every gene on a second chromos'
+        'ome) or a corpus reference from the repository tests, + SNV/INDEL/fusion (incl. sibling fusions from'
+        ' one donor breakpoint)/circRNA/alt-splicing records, adjacent SNV pairs inside circRNA/fusion region'
+        's; one reference execution (threads=1, one GVF per kind, no idx, raw reference) and 3-5 perturbed ex'
+        'ecutions drawing threads 1..8 through SimPool, a random partition/order of records into files, idx s'
+        'ubset, non-ASCII GVF headers, index directory (own / generated for other parameters / updated), cach'
+        'e sizes, order-seam salt; every second case re-runs the reference execution under another PYTHONHASH'
+        'SEED; a third of the cases additionally run one virtual-alarm plan under --threads 1 and --threads k'
+        '; one case per quick run is executed through the real pathos pool.  distinct = distinct (threads, ba'
+        'tch sizes, skipped-transcript positions, #files, idx mask, index_dir kind, salt!=0, cache<n_tx) sign'
+        'atures of perturbed executions with a non-empty reference set')
 ASSUMPTIONS = [
     'SimPool reproduces pathos.ParallelPool.map semantics (submit all, results in submission order, worker '
     'exception -> None); real OS scheduling is not modelled (a map call is a barrier in both)',
